@@ -48,9 +48,13 @@ func witnessParityAfterShrink(t *testing.T, cipher string, msgs []int, newMtu in
 			}
 		}()
 		msg := make([]byte, 300)
+		// one vectored write: the messages are queued under one hold of the session lock, so the session's own update goroutine (which
+		// runs at the same virtual instant) cannot flush some of them first (it did, under CPU load: a 1123-byte first datagram)
+		var vec [][]byte
 		for _, n := range msgs {
-			cli.Write(msg[:n])
+			vec = append(vec, msg[:n])
 		}
+		cli.WriteBuffers(vec)
 		time.Sleep(100 * time.Millisecond)
 		synctest.Wait()
 		if ws := cli.VerifKCPState(); len(ws.SndBuf) != 0 || len(ws.SndQueue) != 0 {
